@@ -1,5 +1,84 @@
 #![allow(non_snake_case)]
-// unit `chordal_augment` : the standard chordal decomposition as a whole (C18) - HEADER FILLED IN BELOW
+// unit `chordal_augment` : the STANDARD form of the chordal decomposition as a whole - augmentation and reversal (C18)
+// (feature `sdp`: `//@features serde,sdp`, as in unit chordal_compact).  Float model: F-opaque for everything structural; the reversal
+// (`s = H s_tail`, `z = H z_tail` averaged) additionally in F-real, because the gemv contract of unit csc_math is stated there.
+//
+// The decomposition is described by sequence-valued spec functions of (init_cones, spatterns) - no quantified "there is a slot" clauses:
+//   pk(sp, i)      number of patterns consumed before cone i = the explicit state of the peekable pattern iterator; is_dec(sp, i) = cone i is decomposed
+//   row_off(i)     first row of cone i;  dim_spec / ovl_spec: rows of the decomposed cones / overlaps, per cone
+//   hI_spec(ci, i) the row indices of H for the cones < i:  id_blk(row, nvars) for a kept cone, for a decomposed one pat_blk = for every clique in
+//                  post order sub_blk(c, row) = the packed upper triangle (a, b) -> row + packed(c[a], c[b]), c = the clique mapped through
+//                  `ordering` and sorted (sorted_of: the sort result as an uninterpreted function of its input)
+//   cones_spec     ZeroConeT(m), then per cone the cone itself or PSDTriangleConeT(nblk[j]) for its cliques
+// PROVED (real text, unbounded; panic-freedom = every index / overflow / unwrap / assert! obligation, plus the clause given):
+//   decomp/augment_standard.rs
+//     add_subblock_map, decompose_with_cone   (again, in sequence form: H_I = old ++ sub_blk(..) / old ++ id_blk(..); cone copied)
+//     decompose_with_sparsity_pattern          H_I = old ++ pat_blk(pattern, row, n_cliques), cones_new = old ++ one PSD cone of size nblk[j] per clique;
+//         every new entry lies in row .. row + tri(dim); as many entries as get_decomposed_dim_and_overlaps counts (map / collect closure: rule mapcollect)
+//     find_standard_H_and_cones                (peekable iterator: rule peekslice, its position is pk) cones_new == cones_spec, H_I == hI_spec, and
+//         H = is_selector(hI_spec): one column per decomposed row, exactly ONE entry per column, value 1, in row hI_spec[c] < m; self untouched;
+//         `assert!(matches!(cone, PSDTriangleConeT(_)))` never fires, the assert_eq! of new_from_triplets hold (|H_I| == lenH)
+//     find_H_col_dimension
+//     decomp_augment_standard                  P_new = blockdiag(P, 0_k) (padded_P: P's arrays + k empty columns), q_new = q ++ 0_k, b_new = b ++ 0_k,
+//         A_new = [A H; 0 -I] (aug_A: columns of A unchanged; column n + l = column l of H followed by (m + l, -1)), sizes (n + k)^2 and (m + k) x (n + k),
+//         both `.unwrap()` of the concatenations succeed, H stored in self.H, nothing else of self changes.  Proved from the contracts of
+//         blockdiag / hvcat (2 x 2 grid literal; lemma_bd_pair, lemma_hv_grid2 evaluate the block sums) and of zeros / identity / negate
+//   decomp/reverse_standard.rs
+//     number_of_overlaps_in_rows               (position_all: rule posall = its body as a loop) the rows whose sum of entries exceeds one, ascending,
+//         exactly those, each with its sum
+//     decomp_reverse_standard                  s[r] = SUM of the s_tail[c] with hI[c] == r ("slack is the sum of the clique blocks"),
+//         z[r] = that sum of z_tail divided by the number of columns naming r where it is > 1, the plain sum else; x untouched, lengths kept
+//   chordal_info.rs: ChordalInfo::get_decomposed_dim_and_overlaps (peekable + match guard: == (dim_spec, ovl_spec)), init_cone_count,
+//     decomposable_cone_count, final_psd_cones_added (fold: sum of n_cliques - #patterns, no underflow), final_cone_count
+//   algebra: CscMatrix::{new, spalloc (units/inc/csc_alloc.rs), zeros, identity, ncols, negate} in array form; SupportedConeT::nvars with the PSD arm
+//     (tri(dim)); SuperNodeTree::get_nblk; DefaultVariables::dims
+// ASSUMED (hand-written stand-ins):
+//   CscMatrix::blockdiag, hvcat      contract text of unit csc_utils (PROVED there), with its vocabulary (bd_*, hv_*, grid_ok) copied verbatim
+//   CscMatrix::gemv, row_sums        contract text of unit csc_math (PROVED there; total_n, rowsum copied verbatim)
+//   CscMatrix::new_from_triplets     NOT the proved text: unit csc_build proves dims_ok + strictly sorted columns + dense(result) == fold of the
+//       triplets (its sorting prefix assumed).  Here only the special case used is stated, in array form: for J = 0..n (one triplet per column)
+//       colptr[c] == c, rowval == I, nzval == V.  It follows from the csc_build contract (a column with exactly one triplet stores exactly that
+//       entry); that derivation is NOT mechanised -> weakest link of this unit
+//   SuperNodeTree::get_clique (text of unit chordal_snode), get_decomposed_dim_and_overlaps (text of unit chordal_tree), coord_to_upper_triangular_index,
+//       triangular_number (unit scalarmath), VectorMath::copy_from (unit vecmath), VertexSet (units/inc/chordal_sets.rs)
+//   std: Peekable<slice::Iter> as SlicePeek (len = not yet yielded, peek = Some(&&s[pos]) / None, next advances), Vec<usize>::sort as usize_sort
+//       (same members, nondecreasing, strictly ascending for distinct members, result = sorted_of(input)); derived Clone of SupportedConeT returns
+//       an equal value; vstd's own specs for `(0usize..n).collect()`, `vec![x; n]`, slice ranges
+//   EXTRACTOR (additive): rules peekslice, mapcollect, posall, vecsort:NAMES, and hint `v` of zipidx (owned Vec of Copy items zipped by value)
+// PRECONDITIONS and the call sites:
+//   ci_wf (what ChordalInfo::new leaves behind): pattern k belongs to a PSD cone of dimension |ordering| < 2^31; ordering maps into 0..|ordering|;
+//     every clique: supernode and separator duplicate-free, DISJOINT, vertices < |ordering|, nblk[j] = |snode| + |separator| (calculate_block_dimensions,
+//     unit chordal_tree); n_cliques >= 1; totals fit a usize.  By inspection of analyse_psdtriangle_sparsity_pattern / SparsityPattern::new /
+//     reorder_snode_consecutively; NOT proved anywhere.  If a vertex were in both the supernode and the separator of a clique, get_clique (a union)
+//     would be shorter than nblk and the assert_eq!(I.len(), J.len()) of new_from_triplets would panic.
+//   decomp_augment_standard `A.m == aug_m` (rows of A == total dimension of init_cones): VIOLABLE - observation O7 / D2 re-examined.
+//     DefaultProblemData::new calls try_chordal_info(A, b, &cones, ..) on the data BEFORE presolve and decomp_augment on the PRESOLVED A_new / b_new.
+//     Legal input: cones [NonnegativeConeT(1), PSDTriangleConeT(d)], b[0] >= 1e20 (presolve_enable, default) so that the presolver drops row 0,
+//     a PSD block with a chordal, non-dense aggregate pattern and chordal_decomposition_compact = false.  Then H has m rows (init_cones) but
+//     A has m - 1: the grid [A H; Z -I] is not grid_ok, hvcat returns Err and `.unwrap()` panics - this is exactly the precondition above, used in
+//     lemma_hv_grid2 (`A.m == H.m`).  (Also init_cones still starts with the dropped nonnegative row, so even without the panic the rows of H
+//     would be shifted by one against the rows of A.)  With the compact form the same mismatch corrupts the row ranges silently (D2 of unit
+//     chordal_compact).  Not fixed.
+//   bd_blk_ok(P), bd_blk_ok(A) (colptr from 0, monotone, rows < m): P is to_triu(P) or the user's; a user-supplied A is never validated.
+//   decomp_reverse_standard: sel_wf(H) is the `is_selector` that decomp_augment_standard ensures (H is private, untouched in between);
+//     new_vars = DefaultVariables::new(init_dims) with init_dims.1 = A.nrows() = H.m when the cone dimensions add up to the rows of A
+//     (_check_dimensions); old_vars of the decomposed problem has (m + k) rows = A_new.m.  `x > T::one()` compares a float sum of ones: exact.
+// NOT PROVED / what would close "every entry of the original constraint rows appears exactly once":
+//   kept cones: immediate from id_blk (row r of the cone is H_I[off + r - row], once);  decomposed cones: row row + packed(u, v) occurs once per
+//   clique that contains u and v (needs `ordering` injective + lemma_subblock_injective of unit chordal_decomp), rows whose (u, v) lies in no clique do
+//   NOT occur in H_I at all - they are all-zero rows of [A b] provided the cliques cover the aggregate pattern (C17, not proved) - so
+//   "every row index in 0..m occurs in H_I" is false as stated and true only modulo structural zeros.  The semantic equivalence of the two
+//   problems (s in PSD <=> clique blocks PSD + completion) is mathematics outside this framework.
+// DROPPED (still not under contract): the compact form - find_compact_A_b_and_cones, add_entries_with_sparsity_pattern, the sort of
+//   get_block_indices, decomp_augment_compact, the loop of decomp_reverse_compact (their helpers are in units chordal_compact / chordal_decomp;
+//   rules peekslice / mapcollect / vecsort written here are what they need next) - and ChordalInfo::new / find_sparsity_patterns /
+//   analyse_psdtriangle_sparsity_pattern (`&mut nz_mask[rowrange]`, find_graph -> QDLDL), psd_completion.  Ran out of time, not out of method.
+// MUTATION ROUND (scratch copy, one edit at a time; each fails the named obligation): Z / negI swapped, negI not negated, Z dims swapped,
+//   blockdiag order, q copy offset, b_new not padded, H not stored (decomp_augment_standard); ZeroConeT dropped / pushed last, `row +=` only for kept
+//   cones, Hdims swapped, peek against coneidx + 1 (find_standard_H_and_cones); sort dropped, get_nblk(0) (decompose_with_sparsity_pattern);
+//   (v[j], v[j]), 0..j (add_subblock_map); push(row) (decompose_with_cone); `sum_overlaps += cols` (get_decomposed_dim_and_overlaps); `>=` for `>`
+//   (number_of_overlaps_in_rows); s divided instead of z, z from the s tail, gemv accumulating (decomp_reverse_standard).  22 of 22 caught; survivors: none
+//   found.  Equivalent by ci_wf (not a survivor): PSDTriangleConeT(c.len()) for get_nblk(i).
 use vstd::prelude::*;
 use crate::SupportedConeT::{PSDTriangleConeT, ZeroConeT};
 verus! {
